@@ -1,14 +1,16 @@
 ---------------------------- MODULE MatcherGen ----------------------------
 (* C03 case generator: every initial state is one filter (family "regex",   *)
 (* "notregex", "opts") or one (filter, value token, timestamp token) triple *)
-(* (family "sites"); the invariant Emit prints the case with the verdict of *)
-(* Matcher!Accept for EVERY name of NameSeq (a string of 0/1).  The driver   *)
+(* (family "sites") or one aggregation (filter, output template) pair       *)
+(* (family "cache", with the output name for every name); the invariant     *)
+(* Emit prints the case with the verdict of Matcher!Accept for EVERY name   *)
+(* of NameSeq (a string of 0/1).  The driver                                *)
 (* runs the real matcher on the same names; python compares bit by bit.     *)
 EXTENDS Matcher, Json, TLC, SequencesExt
 
 CONSTANTS NameSigma,   \* characters names are built from
           MaxLen,      \* names of length 0..MaxLen
-          Families,    \* subset of {"regex", "notregex", "opts", "sites"}
+          Families,    \* subset of {"regex", "notregex", "opts", "sites", "cache"}
           Rich         \* 1: quantified atoms + two-element concatenations with an atom; 2: all pairs
 
 Names   == UNION {[1..n -> NameSigma] : n \in 0..MaxLen}
@@ -67,10 +69,35 @@ ValToks == {one, <<"1", "1">>, <<"1", ".", "1">>}
 TsToks  == {one, <<"1", "1">>}
 Line(s, v, t) == s \o <<" ">> \o v \o <<" ">> \o t
 
+\* ------------------------------------- aggregation (filter, template) pool
+\* for the match cache: regexes with capturing groups x output templates, among them pairs whose
+\* output name is EMPTY for names the filter accepts (empty group, group that takes no part,
+\* reference to a group that does not exist, RE2's reading of $1_sum as the group named "1_sum")
+G1(x) == Grp(1, x)
+G2(x) == Grp(2, x)
+ReOnly(r) == Filter(<<>>, <<>>, <<>>, <<>>, r, NoRe)
+cout == <<TLit(<<"c", ".", "o", "u", "t">>)>>
+CachePool ==
+     {[f |-> f, t |-> cout] : f \in {g \in SitePool : g.regex.k # "none"}}
+\cup {[f |-> ReOnly(Cat(Bol, Cat(la, Cat(ld, Cat(G1(Star(AnyC)), Eol))))), t |-> t] :                 \* ^a\.(.*)$
+          t \in {<<TWord(<<"1">>)>>, <<TWord(<<"1", "_", "s", "u", "m">>)>>, <<TLit(<<"s", ".">>), TRef(1)>>, <<TRef(0)>>}}
+\cup {[f |-> ReOnly(Cat(Bol, Cat(la, Opt(G1(lb))))), t |-> t] : t \in {<<TRef(1)>>, <<TRef(3)>>, <<TRef(1), TLit(<<".", "s">>)>>}}   \* ^a(b)?
+\cup {[f |-> ReOnly(Cat(G1(Star(lb)), Cat(l1, Eol))), t |-> <<TWord(<<"1">>)>>],                        \* (b*)1$
+      [f |-> ReOnly(Cat(Bol, Cat(G1(Star(la)), G2(Star(lb))))), t |-> <<TRef(2), TRef(1)>>],            \* ^(a*)(b*)
+      [f |-> ReOnly(Cat(Bol, Cat(G1(Star(la)), G2(Star(lb))))), t |-> <<TRef(2)>>],
+      [f |-> ReOnly(Cat(Bol, Alt(Cat(la, G1(lb)), Cat(lb, G2(Opt(la)))))), t |-> <<TRef(1), TRef(2)>>],  \* ^(?:a(b)|b(a?))
+      [f |-> ReOnly(Cat(Bol, Cat(G1(Alt(la, lb)), ld))), t |-> <<TLit(<<"x", ".">>), TWord(<<"1">>), TLit(<<".", "s">>)>>],  \* ^(a|b)\.
+      [f |-> ReOnly(Cat(G1(Opt(ld)), Cat(G2(Plus(l1)), Eol))), t |-> <<TRef(1)>>],                      \* (\.?)(1+)$
+      [f |-> Filter(<<>>, <<>>, <<>>, <<>>, Cat(Bol, Cat(la, G1(Star(AnyC)))), Cat(l1, Eol)), t |-> <<TWord(<<"1">>)>>],      \* ^a(.*) not 1$
+      [f |-> Filter(<<"a">>, <<>>, <<>>, <<"b">>, Cat(G1(Star(l1)), Eol), NoRe), t |-> <<TRef(1)>>],     \* prefix a, not sub b, (1*)$
+      [f |-> Filter(<<>>, <<"b">>, <<".">>, <<>>, Cat(ld, G1(Rep01(AnyC))), Cat(Bol, l1)), t |-> <<TRef(1)>>],               \* not prefix b, sub ., \.(.{0,1}) not ^1
+      [f |-> ReOnly(Cat(Bol, Cat(Star(AnyC), G1(Star(lb))))), t |-> <<TRef(1)>>]}                       \* ^.*(b*): greedy .* leaves nothing
+
 Cases ==
   (IF "regex" \in Families THEN {[fam |-> "regex", f |-> Filter(<<>>, <<>>, <<>>, <<>>, r, NoRe)] : r \in RX} ELSE {})
   \cup (IF "notregex" \in Families THEN {[fam |-> "notregex", f |-> Filter(<<>>, <<>>, <<>>, <<>>, NoRe, r)] : r \in RX} ELSE {})
   \cup (IF "opts" \in Families THEN {[fam |-> "opts", f |-> f] : f \in Opts} ELSE {})
+  \cup (IF "cache" \in Families THEN {[fam |-> "cache", f |-> a.f, t |-> a.t] : a \in CachePool} ELSE {})
   \cup (IF "sites" \in Families THEN {[fam |-> "sites", f |-> f, v |-> v, t |-> t] : f \in SitePool, v \in ValToks, t \in TsToks} ELSE {})
 
 \* ----------------------------------------------------------- emission
@@ -100,6 +127,13 @@ CaseJson ==
      THEN LET online == [i \in 1..N |-> Accept(f, Line(NameSeq[i], c.v, c.t))]
           IN [fam |-> c.fam, f |-> RenderFilter(f), ast |-> f, v |-> Flat(c.v), t |-> Flat(c.t),
               expect |-> Bits(acc), online |-> Bits(online)]
+     ELSE IF c.fam = "cache"
+     THEN [fam |-> c.fam, f |-> RenderFilter(f), ast |-> f, tmpl |-> RenderTmpl(c.t), tast |-> c.t, expect |-> Bits(acc),
+           \* sub = the prioritised-paths reading of the regex finds a match (must equal sre, the end-positions reading)
+           sre |-> Bits(sre), sub |-> Bits([i \in 1..N |-> Submatch(f.regex, NameSeq[i]) # <<>>]),
+           snre |-> IF f.notRegex.k = "none" THEN "" ELSE Bits(snre),
+           \* the output name for every name the regex matches (what MatchRegexAndExpand is documented to return)
+           keys |-> [i \in 1..N |-> Flat(OutKey(f, c.t, NameSeq[i]))]]
      ELSE base
 Emit == PrintT("@@C " \o ToJson(CaseJson))
 =============================================================================
